@@ -66,7 +66,15 @@ def regex_match(pattern: str, s: Any, mode: str = "fullmatch") -> Any:
     if not symbolic():
         m = re.fullmatch(pattern, s) if mode == "fullmatch" else re.match(pattern, s)
         return m is not None
-    cps = codepoints(s)
+    return regex_match_units(pattern, codepoints(s), mode)
+
+
+def regex_match_units(pattern: str, cps: list, mode: str = "fullmatch") -> Any:
+    """Like ``regex_match`` for a subject given as a list of (symbolic) code points / code units."""
+    import re
+    if not symbolic():
+        text = "".join(chr(c) for c in cps)
+        return (re.fullmatch(pattern, text) if mode == "fullmatch" else re.match(pattern, text)) is not None
     n = len(cps)
     from crosshair.tracers import NoTracing
     with NoTracing():
